@@ -514,12 +514,13 @@ def ekern_to_krn(
             ekern_to_krn_wrapper(ekern_file, output_file)
         ```
     """
-    with open(input_file, 'r', encoding='utf-8') as file:
+    # newline='': the line ends of the input are part of the content (no translation on reading or writing)
+    with open(input_file, 'r', encoding='utf-8', newline='') as file:
         content = file.read()
 
     kern_content = get_kern_from_ekern(content)
 
-    with open(output_file, 'w', encoding='utf-8') as file:
+    with open(output_file, 'w', encoding='utf-8', newline='') as file:
         file.write(kern_content)
 
 
